@@ -1,4 +1,6 @@
 #![allow(dead_code, unused_imports, unused_macros)]
 #[cfg(kani)] mod c14_scalars;
 #[cfg(kani)] mod c15_euclid;
+#[cfg(kani)] mod c16_poly;
 #[cfg(kani)] mod c17_bitseq;
+#[cfg(kani)] mod c18_link;
